@@ -199,6 +199,7 @@ type Report struct {
 	Violations         []Violation
 	Reached            map[string]int
 	Branches           int64
+	Choices            int64
 	AssertsSolver      int64
 	AssertsConcrete    int64
 	Steps              int64
@@ -292,6 +293,7 @@ func Explore(p *Program, cfg Config) *Report {
 				rep.Paths++
 				rep.Steps += res.Steps
 				rep.Branches += int64(res.Branches)
+				rep.Choices += int64(res.Choices)
 				rep.AssertsSolver += int64(res.AssertsSolver)
 				rep.AssertsConcrete += int64(res.AssertsConcrete)
 				for l := range res.Reached {
@@ -431,6 +433,7 @@ func (ex *Exec) RunPath(fn *ssa.Function, prefix []Decision) (res PathResult) {
 		res.Observes = ex.ps.observes
 		res.Steps = ex.ps.steps
 		res.Branches = ex.ps.branches
+		res.Choices = ex.ps.choices
 		res.AssertsSolver = ex.ps.assertsS
 		res.AssertsConcrete = ex.ps.assertsC
 		res.PanicEvents = ex.ps.panics
